@@ -18,8 +18,9 @@ LEVEL_TEXT = ("Machine-checked theorems about an executable, code-shaped Coq mod
               "run by structural comparison of result lists on generated reachable and malformed operands.")
 LEVEL_NOTE = ("Trusted: Coq kernel; the correspondence harness (generators, Coq literal printer). 'Operands unchanged' is checked on the real "
               "objects by a before/after snapshot (id, scalar, deltas) on every case, aliased calls x+x / x*x included; the reference-level model "
-              "the theorems are about is compared with the real object graph (provenance of every result monomial, state of every pre-existing "
-              "monomial) by the C13 check's `refmodel ops` stream. No axioms.")
+              "the theorems are about (RefModel.v) is evaluated on the same cases and compared with the real object graph (provenance of every "
+              "result monomial: which pre-existing object or fresh; state of every pre-existing monomial after the call), here and in the C13 "
+              "check's `refmodel ops` stream. No axioms.")
 TECHNIQUE = "Coq proof (induction over the merge loops with a value invariant) + differential correspondence via vm_compute"
 EXPLANATION = "see LEVEL_TEXT; theorems in coq/props/C09.v, model coq/theories/Poly.v"
 ASSUMPTIONS = ["choice vectors are at least as long as the largest delta index + 1 (shorter tuples raise IndexError in Python)",
@@ -41,6 +42,8 @@ def one_case(op, pd, qd, raw):
     p, q = PL.from_data(pd, raw), PL.from_data(qd, raw)
     pd0, qd0 = PL.to_data(p), PL.to_data(q)
     sp, sq = snapshot(p), snapshot(q)
+    st = ref_before(p, q)
+    r = None
     try:
         r = vlib.with_timeout(lambda: (p + q) if op == "add" else (p * q), 20)
         res = PL.to_data(r)
@@ -50,7 +53,26 @@ def one_case(op, pd, qd, raw):
     except Exception as e:
         res, exc = None, vlib.exc_sig(e)
     unchanged = (snapshot(p) == sp and snapshot(q) == sq)
-    return {"op": op, "p": pd0, "q": qd0, "res": res, "exc": exc, "unchanged": unchanged}
+    return {"op": op, "p": pd0, "q": qd0, "res": res, "exc": exc, "unchanged": unchanged, "ref": ref_after(st, op, r)}
+
+
+def ref_before(p, q):
+    """reference-level view of the operands: every monomial OBJECT gets a stamp (position in a heap; ZERO's and UNIT's monomials are 0, 1)"""
+    from props import c13
+    S_ = c13.Stamper()
+    ps, qs = [S_.st(m) for m in p.list], [S_.st(m) for m in q.list]
+    return S_, ps, qs, S_.heap()
+
+
+def ref_after(st, op, r):
+    """the case for RefModel.v (props.c13.REF_HEADER.check_op): result monomials with their provenance (stamp of a pre-existing object or
+    fresh), and the state of every pre-existing monomial after the call"""
+    from props import c13
+    if r is None or not st[1] or not st[2] or len(st[3]) > 160:
+        return None
+    S_, ps, qs, h0 = st
+    return "(%s, %s, %s, %s, %s, %s)" % ("ADD" if op == "add" else "TIMES", c13._cq_heap(h0), c13._cq_stamps(ps), c13._cq_stamps(qs),
+                                         c13._cq_obs_poly(S_.obs(r)), c13._cq_heap(S_.heap()[:len(h0)]))
 
 
 def oracle(case, failing):
@@ -116,6 +138,7 @@ def run_chain(steps):
         bop = op.split("_")[0]
         pd0, qd0 = PL.to_data(p), PL.to_data(q)
         sp, sq = snapshot(p), snapshot(q)
+        st = ref_before(p, q)
         try:
             r = vlib.with_timeout(lambda: (p + q) if bop == "add" else (p * q), 60)
             res, exc = PL.to_data(r), None
@@ -125,7 +148,7 @@ def run_chain(steps):
             r, res, exc = None, None, vlib.exc_sig(e)
         unchanged = (snapshot(p) == sp and snapshot(q) == sq)
         out.append({"op": bop, "p": pd0, "q": qd0, "res": res, "exc": exc, "unchanged": unchanged,
-                    "chain": [[o, i, list(c)] for o, i, c in steps[:n + 1]], "aliased": q is p})
+                    "chain": [[o, i, list(c)] for o, i, c in steps[:n + 1]], "aliased": q is p, "ref": ref_after(st, bop, r)})
         if r is None:
             break
         acc = r
@@ -213,8 +236,32 @@ def run(ctx):
                 idx = [int(x) for x in vals[0].strip("[]").split(";") if x.strip()]
                 bad = sh[idx[0]]
                 mism.append(f"stream poly shard {si}: model and code differ on {len(idx)} cases; first: op={bad['op']} p={bad['p']} q={bad['q']} code={bad['res']}")
+        # reference-level model (RefModel.v, the model the operands-unchanged theorems are about) on the same cases: provenance of every
+        # result monomial (which pre-existing object / fresh), its value, and the state of every pre-existing monomial after the call
+        from props import c13
+        refs = [(r["ref"], r) for r in results if r.get("ref")][: ctx.n(900, 6000)]
+        rjobs = []
+        for a in range(0, len(refs), 250):
+            text = (c13.REF_HEADER + "Definition cases : list (opk * heap * rpoly * rpoly * list (option nat * mono) * heap) := "
+                    + vlib.cq_list([x[0] for x in refs[a:a + 250]]) + ".\nEval vm_compute in bad check_op 0 cases.\n")
+            rjobs.append((f"c09_ref{a // 250}", text))
+        routs = vlib.coq_eval_many(rjobs, timeout=900)
+        for k, (name, _) in enumerate(rjobs):
+            ok, out = routs[name]
+            vals = vlib.parse_eval_results(out)
+            if not ok or not vals:
+                mism.append(f"stream refmodel {name}: coqc failed: {out[-300:]}")
+            elif vals[0] != "[]":
+                import re as _re
+                pairs = _re.findall(r"\((\d+), (\d+)\)", vals[0])
+                i, code = int(pairs[0][0]), int(pairs[0][1])
+                bad = refs[k * 250 + i][1]
+                mism.append(f"stream refmodel {name}: {len(pairs)} cases differ; first: {c13.REF_CODES_OP.get(code, code)} on op={bad['op']} "
+                            f"p={bad['p']} q={bad['q']} aliased={bad.get('aliased', False)}")
+        n_ref = len(refs)
     else:
         mism.append("model not built: polynomial correspondence not run")
+        n_ref = 0
     m_aux, n_aux = unitcorr.poly_aux(ctx, ctx.n(300, 3000))
     mism += m_aux
     sizes = [len(r["p"]) * len(r["q"]) for r in results]
@@ -224,7 +271,7 @@ def run(ctx):
                      "live chains (the operand IS the object the previous operation returned; products of leaves over up to 6 sites, sums, aliased x+x / x*x) "
                      "and malformed stream (arbitrary scalar/delta lists set directly on the objects); non-trivial = distinct (op,p,q) with more than two monomials in total",
              "samples": [{"op": r["op"], "p": r["p"], "q": r["q"], "result": r["res"]} for r in results[len(corpus):len(corpus) + 3]],
-             "n_live_chains": len(chains), "n_live_chain_cases": n_chain_cases,
+             "n_refmodel_cases": n_ref, "n_live_chains": len(chains), "n_live_chain_cases": n_chain_cases,
              "n_aliased_calls": sum(1 for r in results if r.get("aliased")),
              "n_reachable": n_reach, "n_malformed": n_mal, "n_corpus": len(corpus), "poly_aux_cases": n_aux, "n_exceptions": n_exc,
              "share_add": round(sum(1 for r in results if r["op"] == "add") / max(1, len(results)), 3),
